@@ -62,6 +62,9 @@ def make_state(fs, a, b, g2, phi, n):
          "D": [np.arange(int(k)) for k in np.minimum(np.asarray(n), 3)], "O": np.zeros(m),
          "XX": a, "YY": b, "XY": XY, "S12": np.full(m, 4.0), "S2": np.full(m, 2.0),
          "M2": np.zeros(m), "compute_t": np.zeros(m)}
+    if int(np.sum(n)) % 3 == 0:
+        # the constructor documents list-valued entries too
+        d = {k: (v.tolist() if isinstance(v, np.ndarray) and k != "XY" else v) for k, v in d.items()}
     return SpectrumResult(d, {"order": 0}, True, fs)
 
 
